@@ -35,6 +35,7 @@ type Scenario struct {
 	crashAt       []int // step numbers at which the worker crashes and is restarted
 	closeAt       int   // step number at which Close is issued (-1 = never)
 	cancelAt      int   // step number at which a cancel command is attempted (-1 never)
+	moreCancels   []int // further cancel attempts, as step distances after the previous one
 	retries       int   // number of retry commands the plan may issue
 	continues     int
 	cmdMidFlight  bool // issue retry/continue while other tasks of the instance are in flight
@@ -173,6 +174,10 @@ func genScenario(rng *Rng, kind string) *Scenario {
 		}
 	case "cancel":
 		s.cancelAt = 2 + rng.Intn(25)
+		for k := rng.Intn(3); k > 0; k-- {
+			s.moreCancels = append(s.moreCancels, 3+rng.Intn(40))
+		}
+		s.retries = 1 + rng.Intn(2)
 		for i := range s.tasks {
 			if rng.Chance(1, 2) {
 				l := s.scripts[s.tasks[i].id+"/run"]
@@ -187,6 +192,12 @@ func genScenario(rng *Rng, kind string) *Scenario {
 	case "cmdrace":
 		s.cmdMidFlight = true
 		s.retries = 2
+	case "foreign":
+		s.foreign = true
+		s.retries = 2
+		// make an own task fail on its first attempt so that a retry command is issued
+		l := s.scripts[s.tasks[0].id+"/run"]
+		l[0].outcome = 1
 	case "fault":
 		s.faultNth = 1 + rng.Intn(6)
 		s.faultMatch = []string{"PatchTaskIns", "PatchDagIns", "ListTaskInstance", "UpdateTaskIns", "PatchTaskIns"}[rng.Intn(5)]
@@ -223,7 +234,8 @@ type runResult struct {
 
 func (e *Engine) dump(coll string) []bsonD { return e.w.Srv.Dump(coll) }
 
-func (e *Engine) tasksWithStatus(sts ...string) []string {
+// allTasksWithStatus includes the tasks of foreign instances.
+func (e *Engine) allTasksWithStatus(sts ...string) []string {
 	var out []string
 	for _, d := range e.dump("task_instance") {
 		for _, s := range sts {
@@ -235,8 +247,33 @@ func (e *Engine) tasksWithStatus(sts ...string) []string {
 	return out
 }
 
+// tasksWithStatus: tasks of the worker's own instances.
+func (e *Engine) tasksWithStatus(sts ...string) []string {
+	var out []string
+	own := map[string]bool{}
+	for _, d := range e.dump("dag_instance") {
+		if docStr(d, "worker") == "worker-1" || docStr(d, "worker") == "" {
+			own[docStr(d, "_id")] = true
+		}
+	}
+	for _, d := range e.dump("task_instance") {
+		if !own[docStr(d, "dagInsId")] {
+			continue
+		}
+		for _, s := range sts {
+			if docStr(d, "status") == s {
+				out = append(out, docStr(d, "_id"))
+			}
+		}
+	}
+	return out
+}
+
 func (e *Engine) anyIns(pred func(d bsonD) bool) bool {
 	for _, d := range e.dump("dag_instance") {
+		if docStr(d, "worker") != "worker-1" && docStr(d, "worker") != "" {
+			continue
+		}
 		if pred(d) {
 			return true
 		}
@@ -280,6 +317,37 @@ func runScenario(w *World, rng *Rng, s *Scenario, maxSteps int) *runResult {
 		}
 	}
 	must(mod.NewDefDispatcher().Do())
+	var foreignBefore string
+	if s.foreign {
+		// instances owned by another worker, in every interesting state, with executable tasks and pending commands
+		k := 0
+		for _, d := range e.dump("dag_instance") {
+			id := docStr(d, "_id")
+			if id == ins.ID {
+				continue
+			}
+			fi, err := e.js.GetDagInstance(id)
+			must(err)
+			fi.Worker = "worker-2"
+			fi.Status = []entity.DagInstanceStatus{entity.DagInstanceStatusScheduled, entity.DagInstanceStatusRunning, entity.DagInstanceStatusFailed, entity.DagInstanceStatusBlocked}[k%4]
+			var tis []*entity.TaskInstance
+			if fi.Status != entity.DagInstanceStatusScheduled {
+				st := []entity.TaskInstanceStatus{entity.TaskInstanceStatusInit, entity.TaskInstanceStatusFailed, entity.TaskInstanceStatusBlocked, entity.TaskInstanceStatusRetrying}[k%4]
+				for _, t := range s.tasks {
+					ti := entity.NewTaskInstance(id, entity.Task{ID: t.id, ActionName: t.action, DependOn: t.deps, TimeoutSecs: 30})
+					ti.Status = st
+					tis = append(tis, ti)
+				}
+				must(e.js.BatchCreatTaskIns(tis))
+			}
+			if k%2 == 1 && len(tis) > 0 {
+				fi.Cmd = &entity.Command{Name: []entity.CommandName{entity.CommandNameRetry, entity.CommandNameContinue, entity.CommandNameCancel}[k%3], TargetTaskInsIDs: []string{tis[0].ID}}
+			}
+			must(e.js.UpdateDagIns(fi))
+			k++
+		}
+		foreignBefore = foreignDump(e)
+	}
 	// scenario facts for the monitors: pre-checks per task, variables per instance
 	for _, t := range s.tasks {
 		e.log(L(I(26), I(e.nm.Id(t.id)), checksSx(t.pre, e.nm)), "S checks "+t.id)
@@ -329,9 +397,27 @@ func runScenario(w *World, rng *Rng, s *Scenario, maxSteps int) *runResult {
 			})
 			e.settle()
 		}
-		if s.cancelAt >= 0 && (steps >= s.cancelAt || stuck) && !cancelDone {
+		inRetryHook := false
+		if s.cancelAt >= 0 && !cancelDone {
+			for _, g := range e.blockedActs() {
+				if strings.HasSuffix(g.desc, ":retry") {
+					inRetryHook = rng.Chance(1, 2)
+				}
+			}
+		}
+		if s.cancelAt >= 0 && (steps >= s.cancelAt || stuck || inRetryHook) && !cancelDone {
 			cancelDone = true
-			run := e.tasksWithStatus("running", "init", "ending")
+			if len(s.moreCancels) > 0 {
+				// further cancel attempts later in the run (e.g. while a retried task is in its retry hook)
+				s.cancelAt = steps + s.moreCancels[0]
+				s.moreCancels = s.moreCancels[1:]
+				cancelDone = false
+			}
+			stuck = false
+			run := e.aliveTaskIns()
+			if len(run) == 0 || rng.Chance(1, 5) {
+				run = e.tasksWithStatus("running", "init", "ending")
+			}
 			if len(run) > 0 {
 				ids := []string{run[rng.Intn(len(run))]}
 				beat()
@@ -342,6 +428,21 @@ func runScenario(w *World, rng *Rng, s *Scenario, maxSteps int) *runResult {
 					return "ok"
 				})
 				e.settle()
+				if inRetryHook || rng.Chance(1, 3) {
+					// process the command at once, while the targeted phase is still parked
+					e.drive(6)
+					if e.anyIns(hasCmd) {
+						par := e.par
+						e.spawn(2, "watchCmd", func() string {
+							if err := par.VerifWatchCmd(); err != nil {
+								return "err"
+							}
+							return "ok"
+						})
+						e.settle()
+						e.drive(2)
+					}
+				}
 			}
 		}
 		if s.cmdMidFlight && s.retries > 0 && !closed && !e.anyIns(hasCmd) && rng.Chance(1, 6) {
@@ -445,6 +546,38 @@ func runScenario(w *World, rng *Rng, s *Scenario, maxSteps int) *runResult {
 				ids = ids[:1]
 			}
 			beat()
+			if s.foreign && rng.Chance(2, 3) {
+				// a command written directly through the store (the commander refuses id lists that span
+				// instances): the own instance's retry also names failed tasks of a foreign instance
+				own := map[string]bool{}
+				var ownIns string
+				for _, d := range e.dump("dag_instance") {
+					if docStr(d, "worker") == "worker-1" {
+						ownIns = docStr(d, "_id")
+					}
+				}
+				for _, d := range e.dump("task_instance") {
+					if docStr(d, "dagInsId") == ownIns {
+						own[docStr(d, "_id")] = true
+					}
+				}
+				all := e.allTasksWithStatus("failed", "canceled")
+				mixed := append([]string{}, ids...)
+				for _, id := range all {
+					if !own[id] {
+						mixed = append(mixed, id)
+					}
+				}
+				e.spawn(6, "retry-direct", func() string {
+					if err := mod.GetStore().PatchDagIns(&entity.DagInstance{BaseInfo: entity.BaseInfo{ID: ownIns},
+						Cmd: &entity.Command{Name: entity.CommandNameRetry, TargetTaskInsIDs: mixed}}); err != nil {
+						return "err"
+					}
+					return "ok"
+				})
+				e.settle()
+				continue
+			}
 			e.spawn(6, "retry", func() string {
 				if err := mod.GetCommander().RetryTask(ids); err != nil {
 					return "err"
@@ -495,9 +628,68 @@ func runScenario(w *World, rng *Rng, s *Scenario, maxSteps int) *runResult {
 	if natural && !e.hung && len(e.liveGates()) == 0 && e.inFlight() == 0 && e.aliveRuns() == 0 {
 		e.log(L(I(24)), "F final")
 	}
+	if s.foreign {
+		if after := foreignDump(e); after != foreignBefore {
+			e.foreignDiff = "before: " + foreignBefore + "\n after: " + after
+		}
+	}
 	// abandon whatever is still parked so that the next scenario starts clean
 	e.crash()
 	return &runResult{journal: e.journal, jtxt: e.jtxt, hung: e.hung, steps: steps, e: e}
+}
+
+// foreignDump renders every instance owned by another worker, and its tasks, without timestamps.
+func foreignDump(e *Engine) string {
+	var out []string
+	foreign := map[string]bool{}
+	for _, d := range e.dump("dag_instance") {
+		if docStr(d, "worker") != "worker-1" {
+			foreign[docStr(d, "_id")] = true
+			out = append(out, fmt.Sprint(stripTimes(d)))
+		}
+	}
+	for _, d := range e.dump("task_instance") {
+		if foreign[docStr(d, "dagInsId")] {
+			out = append(out, fmt.Sprint(stripTimes(d)))
+		}
+	}
+	return strings.Join(out, " ; ")
+}
+
+func stripTimes(d bsonD) bsonD {
+	var o bsonD
+	for _, e := range d {
+		if e.Key != "updatedAt" {
+			o = append(o, e)
+		}
+	}
+	return o
+}
+
+// aliveTaskIns: instance ids of the own tasks that have an action phase parked at a gate right now.
+func (e *Engine) aliveTaskIns() []string {
+	byTask := map[string]string{}
+	own := map[string]bool{}
+	for _, d := range e.dump("dag_instance") {
+		if docStr(d, "worker") == "worker-1" {
+			own[docStr(d, "_id")] = true
+		}
+	}
+	for _, d := range e.dump("task_instance") {
+		if own[docStr(d, "dagInsId")] {
+			byTask[docStr(d, "taskId")] = docStr(d, "_id")
+		}
+	}
+	var out []string
+	for _, g := range e.blockedActs() {
+		parts := strings.Split(g.desc, ":")
+		if len(parts) >= 2 {
+			if id, ok := byTask[parts[1]]; ok {
+				out = append(out, id)
+			}
+		}
+	}
+	return out
 }
 
 // blockedActs lists parked action gates of the live incarnation (runs that are alive).
@@ -563,6 +755,9 @@ func runEngine(cfg *runCfg) {
 		}
 		if res.hung && s.closeAt < 0 {
 			meta.Violate("HARNESS", "not-quiescent", "scheduler could not reach quiescence: "+res.jtxt[len(res.jtxt)-1], s.desc)
+		}
+		if res.e.foreignDiff != "" {
+			meta.Violate("C06", "foreign-modified", "an instance owned by another worker (or one of its tasks) changed: "+res.e.foreignDiff, s.desc)
 		}
 		if len(res.e.panicked) > 0 {
 			meta.Violate("C03", "worker-panic", "a worker goroutine panicked: "+strings.Join(res.e.panicked, "; "), s.desc)
